@@ -753,7 +753,16 @@ enum cc_stat cc_hashtable_iter_next(CC_HashTableIter *iter, TableEntry **te)
  */
 enum cc_stat cc_hashtable_iter_remove(CC_HashTableIter *iter, void **out)
 {
-    return cc_hashtable_remove(iter->table, iter->prev_entry->key, out);
+    if (!iter->prev_entry)
+        return CC_ERR_KEY_NOT_FOUND;
+
+    enum cc_stat status = cc_hashtable_remove(iter->table, iter->prev_entry->key, out);
+
+    /* The entry is gone; a repeated call must not look at it again. */
+    if (status == CC_OK)
+        iter->prev_entry = NULL;
+
+    return status;
 }
 
 /**
